@@ -75,6 +75,15 @@ def _callbacks():
     K["loop_big_map_nested"] = lambda c, p: ("", big + "while(%s){ B9.map(function(x){ return [x,x+1,x+2].map(function(y){ return y*2; }); }); }" % _c(c))
     K["loop_big_sort_cmp"] = lambda c, p: ("", big + "while(%s){ B9.slice().sort(function(a,b){ return a-b; }); }" % _c(c))
     K["loop_big_reduce"] = lambda c, p: ("", big + "while(%s){ B9.reduce(function(a,x){ return a+x; }, 0); }" % _c(c))
+    def native_big(c, p):
+        size = p.get("nb_size", 4096)
+        pad = " ".join("0;" for _ in range(p.get("nb_pad", 0)))
+        op = {"slice": "cp9 = line9.slice(0);", "concat": "cp9 = line9.concat('');", "upper": "cp9 = line9.toUpperCase();",
+              "split": "cp9 = line9.split('');", "arr_slice": "cp9 = arr9.slice(0);", "arr_concat": "cp9 = arr9.concat([]);",
+              "repeat": "cp9 = '-'.repeat(%d);" % size}[p.get("nb_op", "slice")]
+        pre = "var cp9, line9 = '-'.repeat(%d), arr9 = line9.split(''); " % size
+        return ("", "%s%s for (var nb9 = 0; %s; nb9++) { %s }" % (pre, pad, _c(c), op))
+    K["loop_native_big"] = native_big
     K["loop_sort_default"] = lambda c, p: ("", "var a9=[5,3,9,1]; while(%s){ a9.slice().sort(); }" % _c(c))
     return K
 
@@ -410,8 +419,15 @@ def gen_case(seed, i, tier="quick"):
         params["rx_build"] = rng.choice(RX_BUILD)
         params["rx_n"] = rng.choice((18, 22, 26, 30, 40))
         params["rx_mode"] = rng.choice(("loop", "once"))
+    # built-ins on 1-8 KiB operands with a seeded number of steps per iteration and phase
+    if ka != "regex" and rng.random() < 0.06:
+        ka = "loop_native_big"
+    if ka == "loop_native_big":
+        params["nb_size"] = rng.choice((1024, 2048, 3072, 4096, 5120, 8192))
+        params["nb_pad"] = rng.randrange(0, 40)
+        params["nb_op"] = rng.choice(("slice", "concat", "upper", "split", "arr_slice", "arr_concat", "repeat"))
     # regex cells are one keep-alive name but a large sub-product: give them extra weight
-    if ka != "regex" and rng.random() < 0.12:
+    if ka not in ("regex", "loop_native_big") and rng.random() < 0.12:
         ka = "regex"
         params["rx_family"] = rng.choice(sorted(RX_FAMILIES))
         params["rx_api"] = rng.choice(sorted(RX_APIS))
@@ -533,6 +549,12 @@ def execute(case):
     if ssrc is not None:
         so = run_eval(ctx, ssrc, 3_000_000)
         W.log("setup", so["kind"])
+        if so["kind"] != "value":
+            # the setup eval itself ran into the (tiny) time limit: nothing to measure
+            return {"outcome": "setup_failed", "cls": so.get("cls"), "msg": so.get("msg"), "value": None, "work": 0, "cross": None,
+                    "overrun": 0, "elapsed": 0.0, "T": T, "clock_reads": 0, "landing": "", "fired": [], "n_probes": 0, "reenters": 0,
+                    "digest": W.digest(), "bdigest": W.bdigest(), "late_probes": 0,
+                    "violations": [{"clause": "precondition", "detail": "setup eval ended in %s" % so["kind"]}]}
         # the process was descheduled between the two evals (more than T passes)
         S.mono_off += 2.5 * T
     off0 = S.mono_off
